@@ -1,32 +1,132 @@
 package scen
 
 // C34 — membership events are emitted once and only after rebalancing settles.
-// The real event machinery of internal/cluster (consume loop, epoch gating,
-// de-duplication filters, the 30 s overdue timer) is started over the simulated
-// backend and fed generated notification histories; what it emits is compared
-// with the clauses of the property statement.
+//
+// The real event machinery of internal/cluster (Start, the consume loop,
+// handleClusterEvent, join/left tracking, rebalance-epoch gating, the
+// de-duplication filters, the 30 s overdue NodeLeft timer and its AfterFunc
+// callback thread, the Events channel) runs over the simulated backend and is
+// fed generated notification histories by 1–3 concurrent publisher threads;
+// a collector thread reads Events() and stamps every emission with the fake
+// clock. The oracle is a reference model written from the property statement.
+//
+// Generated domain (and why):
+//   * 1–3 peers, 1–3 rebalance epochs. An epoch id is bound to one reason and
+//     one node for the whole run: olric publishes exactly one start event per
+//     routing-table signature, so every copy of a start notification is an
+//     identical duplicate (a start for the same epoch with two different
+//     reasons cannot exist).
+//   * join / left / rebalance-start / rebalance-complete in any order, with
+//     immediate and late duplicates (olric: every member publishes its own
+//     copy of a join/left observation, asynchronously), completions without
+//     starts, starts without completions, re-joins after leaving.
+//   * self-addressed join and node-join rebalance notifications (olric really
+//     delivers them to the joining node; the code filters them).
+//   * self-addressed node-LEFT notifications only in a quarter of the runs
+//     (selfLeft below): a member's own routing table never publishes them
+//     (olric internal/discovery/events.go:handleEvent skips the local member)
+//     and a peer publishes NodeLeft(X) only to the members alive in its
+//     memberlist, which normally excludes X. It is still reachable: a false
+//     failure detection of X that X refutes (memberlist flap) while the
+//     peer's routing-table event loop is lagging (listenClusterEvents handles
+//     events one by one and pushes routing tables in between) makes the
+//     asynchronous publishNodeLeftEvent(X) take its member snapshot when X is
+//     alive again, so X receives NodeLeft(X). goakt has no self filter on that
+//     path (it has one for joins) — see known_findings.jsonl.
+//   * clock advances on a grid that contains every overdue deadline
+//     (first notification of a departure + 30 s) −1 ns, +0, +1 ns, so that a
+//     publisher thread, the consume loop and the AfterFunc callback race at
+//     the timeout instant.
+//
+// Reading of the statement used by the oracle ("never more than the
+// statement"): "until the opposite event" is taken in the most permissive
+// sense — the budget of one NodeJoined per arrival is renewed by a node-left
+// NOTIFICATION for that node as well as by an EMITTED NodeLeft for it (and
+// symmetrically for NodeLeft). Strict alternation of the emitted stream is not
+// demanded: NodeLeft is deferred by design, so "NodeJoined, NodeJoined" with a
+// departure notified in between is legal output.
+// "The rebalance epoch covering it": olric runs one rebalance epoch at a time
+// and a newer start supersedes the older one (which then never completes), so
+// the epoch covering a pending departure is the node-left epoch started most
+// recently at the time of the emission (cluster.go assignLeftEpochLocked:
+// "avoid emitting on superseded epochs"). "Its timeout": 30 s after the first
+// notification of that departure.
 
 import (
 	"context"
 	"fmt"
+	"sort"
+	"strings"
 	"time"
 
 	"github.com/tochemey/goakt/v4/zzverif/simcluster"
 	"github.com/tochemey/goakt/v4/zzverif/simglue"
 )
 
-var c34Real = []string{"internal/cluster.cluster: Start/consume loop, handleClusterEvent, join/left tracking, rebalance-epoch gating, de-duplication filters, overdue NodeLeft timer, Events channel"}
-var c34Stub = []string{"olric + memberlist: simulated single-copy backend behind hook H2 publishing the same JSON cluster-event payloads", "wall clock: fake"}
+var c34Real = []string{"internal/cluster.cluster: Start/Stop, consume loop, handleClusterEvent (JSON decoding), join/left tracking, rebalance-epoch assignment and gating, de-duplication filters, overdue NodeLeft timer (time.AfterFunc callback thread), Events channel"}
+var c34Stub = []string{"olric + memberlist: simulated backend behind hook H2 delivering the same JSON cluster-event payloads (events.NodeJoinEvent/NodeLeftEvent/RebalanceStartEvent/RebalanceCompleteEvent) on the cluster.events channel", "the notification history itself: generated, not produced by a real membership protocol", "wall clock: fake"}
+
+const c34Timeout = 30 * time.Second // the documented overdue bound (cluster.go nodeLeftEmitTimeout)
 
 type c34Notif struct {
-	At    time.Duration
-	Kind  string // join | left | start | complete
-	Node  string
-	Epoch uint64
-	Why   string
+	At     time.Duration
+	Kind   string // join | left | start | complete
+	Node   string
+	Epoch  uint64
+	Why    string
+	Thread int
+}
+
+func (n c34Notif) String() string {
+	switch n.Kind {
+	case "start":
+		return fmt.Sprintf("%v start(e%d,%s,%s)", n.At, n.Epoch, n.Why, c34Short(n.Node))
+	case "complete":
+		return fmt.Sprintf("%v complete(e%d)", n.At, n.Epoch)
+	}
+	return fmt.Sprintf("%v %s(%s)", n.At, n.Kind, c34Short(n.Node))
+}
+
+type c34Emit struct {
+	At   time.Duration
+	Type string
+	Addr string
+}
+
+func (e c34Emit) String() string { return fmt.Sprintf("%v %s(%s)", e.At, e.Type, c34Short(e.Addr)) }
+
+func c34Short(addr string) string {
+	if i := strings.LastIndexByte(addr, ':'); i >= 0 {
+		return addr[i+1:]
+	}
+	return addr
+}
+
+func c34Hist(h []c34Notif) string {
+	s := make([]string, len(h))
+	for i := range h {
+		s[i] = h[i].String()
+	}
+	return "[" + strings.Join(s, "; ") + "]"
+}
+
+func c34Out(o []c34Emit) string {
+	s := make([]string, len(o))
+	for i := range o {
+		s[i] = o[i].String()
+	}
+	return "[" + strings.Join(s, "; ") + "]"
+}
+
+type c34Item struct {
+	At     time.Duration
+	Thread int
+	Reps   int
+	N      c34Notif
 }
 
 func c34Run(c *Ctx) {
+	c.Comp = "cluster-events"
 	b := simglue.EnableCluster(c.F, simcluster.Config{})
 	defer simglue.DisableCluster()
 	b.AutoEvents = false
@@ -36,149 +136,447 @@ func c34Run(c *Ctx) {
 		c.Fail("cluster-start-failed", "cluster", "%v", err)
 		return
 	}
+
+	// ---- collector thread: every emission with the simulated instant it was emitted at
+	var out []c34Emit
+	collDone := false
+	next := self.EventStream()
+	Go(func() {
+		for {
+			e, ok := next()
+			if !ok {
+				collDone = true
+				return
+			}
+			out = append(out, c34Emit{At: Now(), Type: e.Type, Addr: e.Addr})
+		}
+	})
+
+	// ---- the generated case
 	npeers := 1 + c.W.Draw(3)
-	peers := []string{self.Addr}
+	nep := 1 + c.W.Draw(3)
+	nthreads := 1 + c.W.Draw(3)
+	selfLeft := c.W.Draw(4) == 3  // self-addressed node-left notifications (see the header)
+	selfOther := c.W.Draw(3) == 2 // self-addressed join / rebalance-start notifications
+	var peers []string
 	for i := 0; i < npeers; i++ {
 		peers = append(peers, fmt.Sprintf("127.0.0.1:%d", 8002+i))
 	}
-	n := 3 + c.W.Draw(14)
-	var hist []c34Notif
-	type emitted struct {
-		At   time.Duration
-		Type string
-		Addr string
+	pickNode := func(allowSelf bool) string {
+		n := peers[c.W.Draw(npeers)]
+		if allowSelf && c.W.Draw(4) == 3 {
+			n = self.Addr
+		}
+		return n
 	}
-	var out []emitted
-	collect := func() {
-		for _, e := range self.Drain() {
-			out = append(out, emitted{Now(), e.Type, e.Addr})
-		}
+	type epochDef struct {
+		why  string
+		node string
 	}
-	epochs := uint64(1 + c.W.Draw(3))
-	for i := 0; i < n; i++ {
-		var ev c34Notif
-		node := peers[c.W.Draw(len(peers))] // index 0 = the local node itself
-		e := 1 + uint64(c.W.Draw(int(epochs)))
-		switch c.W.Draw(4) {
-		case 0:
-			ev = c34Notif{Kind: "left", Node: node}
-		case 1:
-			ev = c34Notif{Kind: "join", Node: node}
-		case 2:
-			ev = c34Notif{Kind: "start", Epoch: e, Node: node, Why: []string{"node-left", "node-join"}[c.W.Draw(2)]}
-		case 3:
-			ev = c34Notif{Kind: "complete", Epoch: e}
+	epochs := make([]epochDef, nep)
+	for i := range epochs {
+		epochs[i].why = []string{"node-left", "node-join"}[c.W.Draw(2)]
+		epochs[i].node = pickNode(selfOther)
+	}
+	nitems := 3 + c.W.Draw(18)
+	var plan []c34Item
+	var deadlines []time.Duration // first notification of each departure + 30 s
+	lastKind := map[string]string{}
+	t := time.Duration(0)
+	forceGrid := false // the next free-standing notification goes to an overdue deadline
+	// add appends one notification (1–3 copies) to the plan; inEpisode keeps it
+	// close to the previous one, otherwise the gap comes from a grid that
+	// contains the overdue deadlines.
+	add := func(n c34Notif, inEpisode bool) {
+		it := c34Item{Thread: c.W.Draw(nthreads), Reps: 1, N: n}
+		switch r := c.W.Draw(6); r {
+		case 4:
+			it.Reps = 2
+		case 5:
+			it.Reps = 3
 		}
-		reps := 1
-		if c.W.Draw(5) == 4 {
-			reps = 2 // duplicate notification
-			c.Fault("duplicate-notification")
+		g := c.W.Draw(12)
+		if inEpisode {
+			g %= 7
+		} else if forceGrid {
+			g, forceGrid = 9, false
 		}
-		for r := 0; r < reps; r++ {
-			ev.At = Now()
-			hist = append(hist, ev)
-			c.Ops++
-			switch ev.Kind {
-			case "left":
-				b.Publish(self.Addr, simcluster.NodeLeft(ev.Node))
-			case "join":
-				b.Publish(self.Addr, simcluster.NodeJoin(ev.Node))
-			case "start":
-				b.Publish(self.Addr, simcluster.RebalanceStart(ev.Epoch, ev.Why, ev.Node))
-			case "complete":
-				b.Publish(self.Addr, simcluster.RebalanceComplete(ev.Epoch))
+		switch g {
+		case 0, 1, 2: // same instant as the previous notification (races between publisher threads)
+		case 3, 4, 5:
+			t += time.Duration(1+c.W.Draw(50)) * time.Millisecond
+		case 6:
+			t++ // 1 ns
+		case 7, 8:
+			t += time.Duration(1+c.W.Draw(20)) * time.Second
+		case 9, 10: // an overdue deadline −1 ns / +0 / +1 ns
+			var cands []time.Duration
+			for _, d := range deadlines {
+				if d+1 >= t {
+					cands = append(cands, d)
+				}
+			}
+			if len(cands) == 0 {
+				t += c34Timeout
+				break
+			}
+			target := cands[c.W.Draw(len(cands))] + []time.Duration{0, -1, 1}[c.W.Draw(3)]
+			if target > t {
+				t = target
+			}
+			c.Fault("notification-at-overdue-deadline")
+		case 11:
+			t += c34Timeout + time.Duration(c.W.Draw(2))*time.Second
+			c.Fault("clock-advance-past-overdue-timeout")
+		}
+		it.At = t
+		if n.Kind == "left" && lastKind[n.Node] != "left" {
+			deadlines = append(deadlines, t+c34Timeout)
+		}
+		if n.Kind == "left" || n.Kind == "join" {
+			lastKind[n.Node] = n.Kind
+		}
+		plan = append(plan, it)
+	}
+	startOf := func(e int) c34Notif {
+		return c34Notif{Kind: "start", Epoch: uint64(e + 1), Why: epochs[e].why, Node: epochs[e].node}
+	}
+	// epochFor draws an epoch, preferring one bound to the wanted reason
+	epochFor := func(why string) int {
+		var m []int
+		for i := range epochs {
+			if epochs[i].why == why {
+				m = append(m, i)
 			}
 		}
-		switch c.W.Draw(6) {
-		case 0:
-		case 1, 2:
-			Sleep(time.Duration(1+c.W.Draw(50)) * time.Millisecond)
-		case 3:
-			Sleep(time.Duration(1+c.W.Draw(20)) * time.Second)
-		case 4:
-			Sleep(31 * time.Second) // across the overdue timeout
-			c.Fault("clock-advance-past-overdue-timeout")
-		case 5:
-			Yield()
+		if len(m) == 0 {
+			return c.W.Draw(nep)
 		}
-		collect()
+		return m[c.W.Draw(len(m))]
 	}
-	Sleep(100 * time.Millisecond)
-	collect()
-	if c.W.Draw(2) == 1 {
-		Sleep(31 * time.Second)
-		collect()
+	for len(plan) < nitems {
+		switch k := c.W.Draw(13); {
+		case k <= 2:
+			add(c34Notif{Kind: "left", Node: pickNode(selfLeft)}, false)
+		case k <= 4:
+			add(c34Notif{Kind: "join", Node: pickNode(selfOther)}, false)
+		case k <= 6:
+			add(startOf(c.W.Draw(nep)), false)
+		case k <= 8:
+			add(c34Notif{Kind: "complete", Epoch: uint64(c.W.Draw(nep) + 1)}, false)
+		case k == 9: // late duplicate / reordered copy of an earlier notification
+			if len(plan) == 0 {
+				add(c34Notif{Kind: "left", Node: peers[0]}, false)
+			} else {
+				add(plan[c.W.Draw(len(plan))].N, false)
+				c.Fault("late-duplicate-notification")
+			}
+		case k == 12: // a node that left comes back and leaves again, a new node-left epoch starts; next stop: an overdue deadline
+			var gone []string
+			for _, p := range peers {
+				if lastKind[p] == "left" {
+					gone = append(gone, p)
+				}
+			}
+			if len(gone) == 0 {
+				add(c34Notif{Kind: "left", Node: pickNode(false)}, false)
+				break
+			}
+			x := gone[c.W.Draw(len(gone))]
+			add(c34Notif{Kind: "join", Node: x}, false)
+			if c.W.Draw(2) == 0 {
+				add(startOf(epochFor("node-left")), true)
+			}
+			add(c34Notif{Kind: "left", Node: x}, true)
+			forceGrid = true
+			c.Probe("episode-bounce")
+		default: // an episode as olric produces it: membership change, rebalance start, (mostly) its completion
+			kind, why := "left", "node-left"
+			if k == 11 {
+				kind, why = "join", "node-join"
+			}
+			e := epochFor(why)
+			seq := []c34Notif{{Kind: kind, Node: pickNode(false)}, startOf(e)}
+			if c.W.Draw(3) != 2 {
+				seq = append(seq, c34Notif{Kind: "complete", Epoch: uint64(e + 1)})
+			}
+			if c.W.Draw(4) == 3 { // the asynchronous publications overtake each other
+				i := c.W.Draw(len(seq))
+				seq[0], seq[i] = seq[i], seq[0]
+			}
+			for i, n := range seq {
+				add(n, i > 0)
+			}
+			c.Probe("episode-" + kind)
+		}
+	}
+
+	// ---- publisher threads
+	var hist []c34Notif
+	publish := func(th int, n c34Notif) {
+		n.At, n.Thread = Now(), th
+		hist = append(hist, n)
+		c.Ops++
+		switch n.Kind {
+		case "left":
+			b.Publish(self.Addr, simcluster.NodeLeft(n.Node))
+		case "join":
+			b.Publish(self.Addr, simcluster.NodeJoin(n.Node))
+		case "start":
+			b.Publish(self.Addr, simcluster.RebalanceStart(n.Epoch, n.Why, n.Node))
+		case "complete":
+			b.Publish(self.Addr, simcluster.RebalanceComplete(n.Epoch))
+		}
+	}
+	var drivers []func()
+	for th := 0; th < nthreads; th++ {
+		drivers = append(drivers, func() {
+			for _, it := range plan {
+				if it.Thread != th {
+					continue
+				}
+				if d := it.At - Now(); d > 0 {
+					Sleep(d)
+				} else {
+					Yield()
+				}
+				for r := 0; r < it.Reps; r++ {
+					if r > 0 {
+						c.Fault("duplicate-notification")
+						Yield()
+					}
+					publish(th, it.N)
+				}
+			}
+		})
+	}
+	Join(drivers...)
+
+	// ---- tail: let the consume loop drain; optionally run every pending overdue timer
+	Sleep(time.Millisecond)
+	switch c.W.Draw(3) {
+	case 1:
+		var last time.Duration
+		for _, d := range deadlines {
+			if d > last {
+				last = d
+			}
+		}
+		if d := last + 1 - Now(); d > 0 {
+			Sleep(d)
+		}
+	case 2:
+		Sleep(c34Timeout + time.Second)
 	}
 	_ = self.Stop(ctx)
-	c.Note("peers", peers[1:])
-	c.Note("history", fmt.Sprintf("%+v", hist))
+	if !WaitUntil(time.Millisecond, time.Second, func() bool { return collDone }) {
+		c.Fail("events-channel-not-closed", "cluster", "Stop returned but the Events() channel was not closed")
+		return
+	}
+	c.Note("peers", peers)
+	c.Note("history", c34Hist(hist))
+	c.Note("emitted", c34Out(out))
+	c34Oracle(c, self.Addr, peers, hist, out)
+}
 
-	// ---- oracle
-	lastType := map[string]string{}
+// c34Covered reports, for the first n notifications of the history, whether the
+// node-left rebalance epoch started most recently has completed (covered) and
+// whether any node-left epoch has both started and completed (some).
+func c34Covered(hist []c34Notif, n int) (covered, some bool) {
+	started := map[uint64]bool{}
+	var latest uint64
+	for _, h := range hist[:n] {
+		if h.Kind == "start" && h.Why == "node-left" && !started[h.Epoch] {
+			started[h.Epoch] = true
+			latest = h.Epoch
+		}
+	}
+	for _, h := range hist[:n] {
+		if h.Kind == "complete" && started[h.Epoch] {
+			some = true
+			if h.Epoch == latest {
+				covered = true
+			}
+		}
+	}
+	return
+}
+
+// c34Oracle is the reference model. Time comparisons are inclusive wherever the
+// order of two things inside one simulated instant cannot be observed from
+// outside, so every tie is resolved in favour of the implementation.
+func c34Oracle(c *Ctx, self string, peers []string, hist []c34Notif, out []c34Emit) {
+	known := map[string]bool{self: true}
+	for _, p := range peers {
+		known[p] = true
+	}
+	for _, p := range peers {
+		// "occurrences" of one side: notifications of kind `kind` for p that open a
+		// new arrival/departure, i.e. the first one, or one with an opposite event
+		// (an opposite notification or an opposite emission) since the previous
+		// notification of the same kind.
+		occurrences := func(kind, oppositeKind, oppositeType string) []time.Duration {
+			var occ []time.Duration
+			prev := -1
+			for i, h := range hist {
+				if h.Kind != kind || h.Node != p {
+					continue
+				}
+				renewed := prev < 0
+				if !renewed {
+					for _, m := range hist[prev+1 : i] {
+						if m.Kind == oppositeKind && m.Node == p {
+							renewed = true
+						}
+					}
+					for _, e := range out {
+						if e.Type == oppositeType && e.Addr == p && e.At >= hist[prev].At && e.At <= h.At {
+							renewed = true
+						}
+					}
+				}
+				if renewed {
+					occ = append(occ, h.At)
+				}
+				prev = i
+			}
+			return occ
+		}
+		arrivals := occurrences("join", "left", "NodeLeft")
+		departures := occurrences("left", "join", "NodeJoined")
+		countUpTo := func(ts []time.Duration, t time.Duration) int {
+			n := 0
+			for _, x := range ts {
+				if x <= t {
+					n++
+				}
+			}
+			return n
+		}
+
+		// at most one NodeJoined per arrival, one NodeLeft per departure
+		nj, nl := 0, 0
+		type leftEm struct {
+			at      time.Duration
+			thresh  time.Duration // latest first-notification time of a departure that justifies this emission
+			covered bool
+			some    bool
+		}
+		var lefts []leftEm
+		for _, e := range out {
+			if e.Addr != p {
+				continue
+			}
+			switch e.Type {
+			case "NodeJoined":
+				nj++
+				c.Probe("nodejoined-emitted")
+				if nj > 1 {
+					c.Probe("nodejoined-again-for-a-later-arrival")
+				}
+				if have := countUpTo(arrivals, e.At); nj > have {
+					if have == 0 {
+						c.Fail("nodejoined-without-arrival", "NodeJoined", "NodeJoined for %s emitted at %v but no node-join notification for it had been delivered; history %s emitted %s", p, e.At, c34Hist(hist), c34Out(out))
+					} else {
+						c.Fail("membership-event-twice", "NodeJoined", "NodeJoined #%d for %s emitted at %v, but only %d arrival(s) of it had been notified by then (no node-left notification and no emitted NodeLeft for it since the previous node-join notification); history %s emitted %s", nj, p, e.At, have, c34Hist(hist), c34Out(out))
+					}
+					return
+				}
+			case "NodeLeft":
+				nl++
+				c.Probe("nodeleft-emitted")
+				if have := countUpTo(departures, e.At); nl > have {
+					if have == 0 {
+						c.Fail("nodeleft-without-departure", "NodeLeft", "NodeLeft for %s emitted at %v but no node-left notification for it had been delivered; history %s emitted %s", p, e.At, c34Hist(hist), c34Out(out))
+					} else {
+						c.Fail("membership-event-twice", "NodeLeft", "NodeLeft #%d for %s emitted at %v, but only %d departure(s) of it had been notified by then (no node-join notification and no emitted NodeJoined for it since the previous node-left notification); history %s emitted %s", nl, p, e.At, have, c34Hist(hist), c34Out(out))
+					}
+					return
+				}
+				// which notifications had been handled when this was emitted: every one
+				// delivered before the instant, and some prefix of those delivered in it
+				lo, hi := 0, 0
+				for _, h := range hist {
+					if h.At < e.At {
+						lo++
+					}
+					if h.At <= e.At {
+						hi++
+					}
+				}
+				le := leftEm{at: e.At}
+				for n := lo; n <= hi; n++ {
+					cov, some := c34Covered(hist, n)
+					le.covered = le.covered || cov
+					le.some = le.some || some
+				}
+				if le.covered {
+					le.thresh = e.At
+					c.Probe("nodeleft-after-epoch-complete")
+				} else {
+					le.thresh = e.At - c34Timeout
+					c.Probe("nodeleft-without-covering-epoch")
+				}
+				lefts = append(lefts, le)
+			}
+		}
+		// epoch gating: match every NodeLeft with its own departure (smallest
+		// threshold takes the earliest departure — acceptance sets are nested, so
+		// this finds a matching whenever one exists)
+		sorted := append([]leftEm(nil), lefts...)
+		sort.SliceStable(sorted, func(i, j int) bool { return sorted[i].thresh < sorted[j].thresh })
+		feasible := true
+		for j, le := range sorted {
+			if j >= len(departures) {
+				break // already reported by the counting clause
+			}
+			if departures[j] > le.thresh {
+				feasible = false
+				break
+			}
+			if !le.covered {
+				c.Probe("nodeleft-by-overdue-timeout")
+				if le.at-departures[j] == c34Timeout {
+					c.Probe("nodeleft-exactly-at-overdue-deadline")
+				}
+			}
+		}
+		if !feasible {
+			// no assignment of departures justifies every NodeLeft; blame the first
+			// emission that the in-order assignment (k-th NodeLeft, k-th departure)
+			// cannot justify
+			blame, dep := sorted[0], departures[0]
+			for j, le := range lefts {
+				if j < len(departures) && departures[j] > le.thresh {
+					blame, dep = le, departures[j]
+					break
+				}
+			}
+			if blame.some {
+				c.Fail("nodeleft-while-newer-epoch-pending", "NodeLeft", "NodeLeft for %s emitted at %v: the node-left rebalance epoch started most recently had not completed (only a superseded one had) and the departure it belongs to (first notified at %v) was only %v old (< 30s); departures of it first notified at %v; history %s emitted %s", p, blame.at, dep, blame.at-dep, departures, c34Hist(hist), c34Out(out))
+			} else {
+				c.Fail("nodeleft-before-rebalance-complete", "NodeLeft", "NodeLeft for %s emitted at %v although no node-left rebalance epoch had both started and completed and the departure it belongs to (first notified at %v) was only %v old (< 30s); departures of it first notified at %v; history %s emitted %s", p, blame.at, dep, blame.at-dep, departures, c34Hist(hist), c34Out(out))
+			}
+			return
+		}
+	}
+	// the local node never reports itself; nothing about nodes nobody mentioned
 	for _, e := range out {
 		if e.Type != "NodeJoined" && e.Type != "NodeLeft" {
 			continue
 		}
-		if e.Addr == self.Addr {
-			c.Fail("self-membership-event", e.Type, "the local node %s reported itself as %s at %v; history %+v", self.Addr, e.Type, e.At, hist)
+		if !known[e.Addr] {
+			c.Fail("membership-event-unknown-node", e.Type, "%s emitted for %q which no notification named; history %s emitted %s", e.Type, e.Addr, c34Hist(hist), c34Out(out))
 			return
 		}
-		if lastType[e.Addr] == e.Type {
-			c.Fail("membership-event-twice", e.Type, "%s emitted twice for %s without the opposite event in between (second at %v); history %+v emitted %+v", e.Type, e.Addr, e.At, hist, out)
+		if e.Addr == self {
+			c.Fail("self-membership-event", e.Type, "the local node %s reported itself as %s at %v; history %s emitted %s", self, e.Type, e.At, c34Hist(hist), c34Out(out))
 			return
-		}
-		lastType[e.Addr] = e.Type
-		if e.Type == "NodeLeft" {
-			// justified by a node-left notification for that node before the emission …
-			var leftAt time.Duration = -1
-			for _, h := range hist {
-				if h.Kind == "left" && h.Node == e.Addr && h.At <= e.At && leftAt < 0 {
-					leftAt = h.At
-				}
-			}
-			if leftAt < 0 {
-				c.Fail("nodeleft-without-departure", "NodeLeft", "NodeLeft for %s emitted at %v but no node-left notification for it had been received; history %+v", e.Addr, e.At, hist)
-				return
-			}
-			// … and by a completed node-left rebalance epoch, or by the timeout
-			started, done := map[uint64]bool{}, false
-			for _, h := range hist {
-				if h.At > e.At {
-					break
-				}
-				if h.Kind == "start" && h.Why == "node-left" {
-					started[h.Epoch] = true
-				}
-			}
-			for _, h := range hist {
-				if h.At > e.At {
-					break
-				}
-				if h.Kind == "complete" && started[h.Epoch] {
-					done = true
-				}
-			}
-			overdue := false
-			for _, h := range hist {
-				if h.Kind == "left" && h.Node == e.Addr && e.At-h.At >= 30*time.Second {
-					overdue = true
-				}
-			}
-			if !done && !overdue {
-				c.Fail("nodeleft-before-rebalance-complete", "NodeLeft", "NodeLeft for %s emitted at %v although no node-left rebalance epoch had both started and completed and the departure (notified at %v) was younger than 30s; history %+v", e.Addr, e.At, leftAt, hist)
-				return
-			}
-			c.Probe("nodeleft-emitted")
-			if overdue && !done {
-				c.Probe("nodeleft-by-overdue-timeout")
-			}
-		} else {
-			c.Probe("nodejoined-emitted")
 		}
 	}
 }
 
 func init() {
-	Register(&Scenario{Prop: "C34", Name: "membership-events", Quick: 4000, Thorough: 400000,
-		EstSteps: 1500, MaxSteps: 400000, MaxIdle: time.Hour, Real: c34Real, Stub: c34Stub, Run: c34Run})
+	Register(&Scenario{Prop: "C34", Name: "membership-events", Quick: 8000, Thorough: 800000,
+		EstSteps: 200, MaxSteps: 400000, MaxIdle: time.Hour, Real: c34Real, Stub: c34Stub, Run: c34Run})
 }
